@@ -25,9 +25,10 @@ Definition same_rest (s s' : sstate) : Prop :=
 Lemma same_rest_refl s : same_rest s s.
 Proof. unfold same_rest; repeat split. Qed.
 
-Definition accepts (s : sstate) (vb : N) (o : offset) : bool :=
+Definition accepts_open (s : sstate) (vb : N) (o : offset) : bool :=
   in_range (s_range s) vb &&
   match s_offs s vb with Some cur => negb (o_seq o <? o_seq cur) | None => true end.
+Definition accepts (s : sstate) (vb : N) (o : offset) : bool := negb (s_obs_nil s) && accepts_open s vb o.
 
 Lemma set_offset_spec s vb o d :
   let '(s', outs) := set_offset s vb o d in
@@ -39,13 +40,23 @@ Lemma set_offset_spec s vb o d :
   else
     outs = [] /\ s' = s.
 Proof.
-  unfold set_offset, accepts. destruct (in_range (s_range s) vb); cbn [andb].
+  unfold set_offset, accepts, accepts_open. destruct (s_obs_nil s); cbn [negb andb]; [split; [apply same_rest_refl|auto]|].
+  destruct (in_range (s_range s) vb); cbn [andb].
   - destruct (s_offs s vb) as [cur|].
     + destruct (o_seq o <? o_seq cur); cbn [negb].
       * split; [apply same_rest_refl|auto].
       * destruct d; cbn; (split; [unfold same_rest; cbn; repeat split|auto]).
     + destruct d; cbn; (split; [unfold same_rest; cbn; repeat split|auto]).
   - split; [apply same_rest_refl|auto].
+Qed.
+
+Lemma accepts_true s vb o : accepts s vb o = true ->
+  s_obs_nil s = false /\ in_range (s_range s) vb = true /\
+  match s_offs s vb with Some cur => o_seq cur <= o_seq o | None => True end.
+Proof.
+  unfold accepts, accepts_open. intros H. apply andb_true_iff in H. destruct H as [H1 H]. apply andb_true_iff in H. destruct H as [H2 H3].
+  apply negb_true_iff in H1. split; [exact H1|]. split; [exact H2|].
+  destruct (s_offs s vb); [|exact I]. apply negb_true_iff, N.ltb_ge in H3. exact H3.
 Qed.
 
 (* ---------- C06: validity of every offset and document ---------- *)
@@ -191,6 +202,13 @@ Proof.
   - intros x q H. exact H.
   - intros x H. unfold save_body; cbn. exact H.
   - repeat split.
+Qed.
+
+Lemma next_queued_core_nil s : s_obs_nil (fst (next_queued s)) = s_obs_nil s.
+Proof.
+  unfold next_queued. apply (drain_preserves (fun s' => s_obs_nil s' = s_obs_nil s)); [| |reflexivity].
+  - intros x q H. exact H.
+  - intros x H. unfold save_body; cbn. exact H.
 Qed.
 
 (* with nobody waiting the hand-over does nothing *)
@@ -463,8 +481,7 @@ Proof.
   intros Hc. pose proof (set_offset_spec s vb o d) as H. destruct (set_offset s vb o d) as [s' outs]. cbn [fst].
   destruct H as [_ H]. destruct (accepts s vb o) eqn:A.
   - destruct H as (_ & Ho & _). rewrite Ho. destruct (N.eq_dec v vb) as [->|Hne].
-    + rewrite fupd_same. exists o. split; [reflexivity|]. unfold accepts in A. rewrite Hc in A.
-      apply andb_true_iff in A. destruct A as [_ A]. apply negb_true_iff, N.ltb_ge in A. exact A.
+    + rewrite fupd_same. exists o. split; [reflexivity|]. apply accepts_true in A. destruct A as (_ & _ & A). now rewrite Hc in A.
     + rewrite fupd_other by exact Hne. exists cur. split; [exact Hc|lia].
   - destruct H as [_ ->]. exists cur. split; [exact Hc|lia].
 Qed.
@@ -496,18 +513,21 @@ Qed.
 
 (* foreign acknowledgements: outside the assigned range nothing is created or altered *)
 Lemma set_offset_foreign s vb o d : in_range (s_range s) vb = false -> set_offset s vb o d = (s, []).
+Proof. intros H. unfold set_offset. rewrite H. now destruct (s_obs_nil s). Qed.
+
+Lemma set_offset_closed s vb o d : s_obs_nil s = true -> set_offset s vb o d = (s, []).
 Proof. intros H. unfold set_offset. now rewrite H. Qed.
 
 (* the accepted position is the maximum: after set_offset the tracked seq is max(old, new) *)
 Lemma set_offset_max s vb o d :
-  in_range (s_range s) vb = true ->
+  s_obs_nil s = false -> in_range (s_range s) vb = true ->
   match s_offs (fst (set_offset s vb o d)) vb with
   | Some x => o_seq x = match s_offs s vb with Some cur => N.max (o_seq cur) (o_seq o) | None => o_seq o end
   | None => False
   end.
 Proof.
-  intros R. pose proof (set_offset_spec s vb o d) as H. destruct (set_offset s vb o d) as [s' outs]. cbn [fst].
-  destruct H as [_ H]. unfold accepts in H. rewrite R in H. cbn [andb] in H.
+  intros Nl R. pose proof (set_offset_spec s vb o d) as H. destruct (set_offset s vb o d) as [s' outs]. cbn [fst].
+  destruct H as [_ H]. unfold accepts, accepts_open in H. rewrite Nl, R in H. cbn [negb andb] in H.
   destruct (s_offs s vb) as [cur|] eqn:E.
   - destruct (N.ltb_spec (o_seq o) (o_seq cur)); cbn [negb] in H.
     + destruct H as [_ ->]. rewrite E. lia.
@@ -976,11 +996,11 @@ Proof.
 Qed.
 
 Lemma set_offset_vb s1 vb' o' d vb cur :
-  in_range (s_range s1) vb = true -> s_offs s1 vb = Some cur ->
+  s_obs_nil s1 = false -> in_range (s_range s1) vb = true -> s_offs s1 vb = Some cur ->
   exists x, s_offs (fst (set_offset s1 vb' o' d)) vb = Some x /\ o_seq x = N.max (o_seq cur) (max_seq vb [(vb', o')]).
 Proof.
-  intros R Hc. cbn [max_seq]. destruct (N.eqb_spec vb' vb) as [->|Hne].
-  - pose proof (set_offset_max s1 vb o' d R) as H. rewrite Hc in H.
+  intros Nl R Hc. cbn [max_seq]. destruct (N.eqb_spec vb' vb) as [->|Hne].
+  - pose proof (set_offset_max s1 vb o' d Nl R) as H. rewrite Hc in H.
     destruct (s_offs (fst (set_offset s1 vb o' d)) vb) as [x|]; [|contradiction]. exists x. split; [reflexivity|lia].
   - pose proof (set_offset_spec s1 vb' o' d) as H. destruct (set_offset s1 vb' o' d) as [s' outs]. cbn [fst].
     destruct H as [_ H]. destruct (accepts s1 vb' o').
@@ -994,45 +1014,52 @@ Proof.
   destruct H as [R _]. apply R.
 Qed.
 
+Lemma set_offset_nil s vb o d : s_obs_nil (fst (set_offset s vb o d)) = s_obs_nil s.
+Proof.
+  pose proof (set_offset_spec s vb o d) as H. destruct (set_offset s vb o d) as [s' outs]. cbn [fst].
+  destruct H as [R _]. apply R.
+Qed.
+
 Lemma session_step_max s o vb cur :
-  session_op o = true -> in_range (s_range s) vb = true -> s_offs s vb = Some cur ->
-  s_range (fst (step s o)) = s_range s /\
+  session_op o = true -> s_obs_nil s = false -> in_range (s_range s) vb = true -> s_offs s vb = Some cur ->
+  s_obs_nil (fst (step s o)) = false /\ s_range (fst (step s o)) = s_range s /\
   exists x, s_offs (fst (step s o)) vb = Some x /\ o_seq x = N.max (o_seq cur) (max_seq vb (log_add s o)).
 Proof.
-  intros So R Hc.
-  assert (Same : s_range s = s_range s /\ exists x, s_offs s vb = Some x /\ o_seq x = N.max (o_seq cur) (max_seq vb [])).
-  { split; [reflexivity|]. exists cur. split; [exact Hc|cbn; lia]. }
+  intros So Nl R Hc.
+  assert (Same : s_obs_nil s = false /\ s_range s = s_range s /\ exists x, s_offs s vb = Some x /\ o_seq x = N.max (o_seq cur) (max_seq vb [])).
+  { split; [exact Nl|]. split; [reflexivity|]. exists cur. split; [exact Hc|cbn; lia]. }
   unfold step, log_add. destruct (s_failed s); [exact Same|].
   destruct o as [first last sv| |first last sv|cancel|v e|i| | |v|ok| |high|v c uuid roll]; try discriminate.
   - destruct (s_obs s v) as [ob|]; [|exact Same].
     destruct (obs_event (s_cfg s) ob e) as [ob' f]. cbn [snd].
     destruct f as [|k it o coll t|o|]; cbn [fst]; try exact Same.
     + destruct (is_meta (i_key it)); [|exact Same].
-      split; [now rewrite set_offset_range|]. apply set_offset_vb; assumption.
-    + split; [now rewrite set_offset_range|]. apply set_offset_vb; assumption.
+      split; [now rewrite set_offset_nil|]. split; [now rewrite set_offset_range|]. apply set_offset_vb; assumption.
+    + split; [now rewrite set_offset_nil|]. split; [now rewrite set_offset_range|]. apply set_offset_vb; assumption.
   - destruct (nth_error (s_ctxs s) i) as [[v o]|]; [|exact Same].
-    pose proof (set_offset_range s v o true) as Rr. pose proof (set_offset_vb s v o true vb cur R Hc) as H.
-    destruct (set_offset s v o true) as [s1 outs]. cbn [fst] in *. split; [exact Rr|exact H].
+    pose proof (set_offset_nil s v o true) as Rn. pose proof (set_offset_range s v o true) as Rr.
+    pose proof (set_offset_vb s v o true vb cur Nl R Hc) as H.
+    destruct (set_offset s v o true) as [s1 outs]. cbn [fst] in *. split; [cbn; congruence|]. split; [exact Rr|exact H].
   - destruct (s_inflight s); [exact Same|]. destruct (negb (s_any_dirty s)); exact Same.
   - destruct (s_inflight s); [|exact Same]. destruct (negb (s_any_dirty s)); exact Same.
   - destruct (s_inflight s) as [[dump dl]|]; [|exact Same].
     destruct (lookup_doc dump v); [|exact Same]. destruct (mem v dl); exact Same.
   - destruct (s_inflight s) as [[dump dl]|]; [|exact Same].
-    destruct ok; match goal with |- context [next_queued ?x] => pose proof (next_queued_fields x) as (Ho & _ & _ & _ & Hr & _) end; rewrite Ho, Hr; exact Same.
-  - destruct (s_obs_nil s); exact Same.
+    destruct ok; match goal with |- context [next_queued ?x] => pose proof (next_queued_core_nil x) as Hn; pose proof (next_queued_fields x) as (Ho & _ & _ & _ & Hr & _) end; rewrite Hn, Ho, Hr; exact Same.
+  - rewrite Nl. exact Same.
   - destruct (s_obs s v) as [ob|]; [|exact Same]. destruct (ob_end_closed ob); [exact Same|].
     destruct c; try exact Same. destruct (s_cancel s); [exact Same|]. destruct (s_offs s v); exact Same.
 Qed.
 
 Theorem session_max ops : forall s vb cur,
-  forallb session_op ops = true -> in_range (s_range s) vb = true -> s_offs s vb = Some cur ->
+  forallb session_op ops = true -> s_obs_nil s = false -> in_range (s_range s) vb = true -> s_offs s vb = Some cur ->
   exists x, s_offs (fst (run s ops)) vb = Some x /\ o_seq x = N.max (o_seq cur) (max_seq vb (log_run s ops)).
 Proof.
-  induction ops as [|o r IH]; intros s vb cur H R Hc.
+  induction ops as [|o r IH]; intros s vb cur H Nl R Hc.
   - exists cur. split; [exact Hc|cbn; lia].
   - cbn in H. apply andb_true_iff in H. destruct H as [Ho Hr]. cbn [run log_run].
-    destruct (session_step_max s o vb cur Ho R Hc) as (Rr & x & Hx & Ex).
+    destruct (session_step_max s o vb cur Ho Nl R Hc) as (Nl1 & Rr & x & Hx & Ex).
     destruct (step s o) as [s1 out1] eqn:E. cbn [fst] in *. rewrite <- Rr in R.
-    destruct (IH s1 vb x Hr R Hx) as (y & Hy & Ey). destruct (run s1 r) as [s2 outs]. cbn [fst] in *.
+    destruct (IH s1 vb x Hr Nl1 R Hx) as (y & Hy & Ey). destruct (run s1 r) as [s2 outs]. cbn [fst] in *.
     exists y. split; [exact Hy|]. rewrite max_seq_app. lia.
 Qed.
